@@ -68,6 +68,19 @@ class CmsDriver:
         if kind == "join":
             return self._join(op[1])
         k = self.pool[op[1] % len(self.pool)]
+        if kind == "over_remove":
+            # removal beyond the outstanding count (negative cells): only for state building (C05/C19), no bounds oracle applies
+            if self.cls == "hh" or not self.P.get("allow_over_remove"):
+                kind, op = "add", ["add", op[1], 1 + op[2] % 3]
+            else:
+                n = 1 + op[2] % 9
+                r = ctx.call(self.noexc, o.remove, k, n)
+                self.true[k] -= n
+                self.total -= n
+                self.last[k] = r
+                self.feats.add("over_remove")
+                ctx.op("over_remove", op[1] % len(self.pool), n, r)
+                return self.verify(f"after over_remove({k!r},{n})")
         if kind == "remove" and (self.cls == "hh" or self.true[k] <= 0):
             kind, op = "add", ["add", op[1], 1 + op[2] % 3]
         if kind == "add":
@@ -218,7 +231,7 @@ class CmsDriver:
         self.ctx.feat("d=%d" % min(self.d, 6))
 
 
-def case_strategy(tier, classes=("cms",), allow_clear=False, max_ops=40, small=False, extra_ops=False):
+def case_strategy(tier, classes=("cms",), allow_clear=False, max_ops=40, small=False, extra_ops=False, over_remove=False):
     from hypothesis import strategies as st
 
     from .. import gen
@@ -244,6 +257,8 @@ def case_strategy(tier, classes=("cms",), allow_clear=False, max_ops=40, small=F
                st.tuples(st.just("remove"), ki, st.integers(0, 1000))]
         if allow_clear:
             ops.append(st.tuples(st.just("clear")))
+        if over_remove:
+            ops.append(st.tuples(st.just("over_remove"), ki, st.integers(0, 1000)))
         if extra_ops:
             ops.append(st.tuples(st.just("reload"), st.integers(0, 1)))
             ops.append(st.tuples(st.just("join"), st.lists(st.tuples(ki, st.integers(1, 5)), max_size=4)))
